@@ -126,6 +126,16 @@ class Ev:
         if isinstance(st, ast.AugAssign):
             cur = self.ev(st.target)
             v = self.ev(st.value)
+            # objects with an in-place operator (lists, sets, mutable stand-ins) are updated in place, as in Python:
+            # the update is then visible through every alias of the object
+            dunder = {ast.Add: "__iadd__", ast.Sub: "__isub__", ast.Mult: "__imul__", ast.Div: "__itruediv__",
+                      ast.BitOr: "__ior__", ast.BitAnd: "__iand__", ast.BitXor: "__ixor__", ast.FloorDiv: "__ifloordiv__",
+                      ast.Mod: "__imod__", ast.Pow: "__ipow__"}.get(type(st.op))
+            if dunder and hasattr(type(cur), dunder):
+                res = getattr(cur, dunder)(v)
+                if res is not NotImplemented:
+                    self.assign(st.target, res)
+                    return
             self.assign(st.target, self.binop(st.op, cur, v))
             return
         if isinstance(st, ast.If):
